@@ -275,10 +275,11 @@ func DecodeValue(src string, pos int) (ret int, v types.JsonState) {
 		return ret, types.JsonState{Vt: types.V_FALSE}
 	case '-', '+', '0', '1', '2', '3', '4', '5', '6', '7', '8', '9':
 		var iv int64
-		ret, iv, _ = decodeInt64(src, pos)
-		if ret >= 0 {
+		var ierr error
+		ret, iv, ierr = decodeInt64(src, pos)
+		if ret >= 0 && ierr == nil {
 			return ret, types.JsonState{Vt: types.V_INTEGER, Iv: iv, Ep: int64(pos)}
-		} else if ret != -int(types.ERR_INVALID_NUMBER_FMT) {
+		} else if ret < 0 && ret != -int(types.ERR_INVALID_NUMBER_FMT) {
 			return ret, types.JsonState{Vt: types.ValueType(ret)}
 		}
 		var fv float64
